@@ -287,6 +287,7 @@ def gen : Hint → Pith → Nat → Expr
           (.and (.bind (pv kv) (.nextIter (.var (pv k'))))
             (.and (gen kh .var kv) (gen vh (.complex (.idxKey (.var (pv k')) (pv kv))) kv))))
   | .typeOf cs, p, k => .and (.isinst (p.asg k) [cType]) (.issub (.var (pv (p.idx k))) cs)
+  | .generic c bs, p, k => andList (.isinst (p.asg k) [c] :: genBases bs (p.idx k))
   | .annotated h vs, p, k =>
     let k' := p.idx k
     if h.ignorable then
@@ -300,6 +301,11 @@ def gen : Hint → Pith → Nat → Expr
 def genUnion : List Hint → Pith → Nat → List Expr
   | [], _, _ => []
   | h :: hs, p0, k => if h.cls?.isSome then genUnion hs p0 k else gen h p0 k :: genUnion hs .var k
+/-- unerased pseudo-superclasses of a user generic: each checked on the variable
+    (codepep484585generic.py: CODE_PEP484585_GENERIC_PREFIX / _CHILD / _SUFFIX) -/
+def genBases : List Hint → Nat → List Expr
+  | [], _ => []
+  | h :: hs, k => gen h .var k :: genBases hs k
 /-- positions of a fixed tuple; ignorable children are dropped -/
 def genTuple : List Hint → Nat → Nat → List Expr
   | [], _, _ => []
